@@ -658,6 +658,33 @@ class _FoldConsts(ast.NodeTransformer):
         self.generic_visit(node)
         if isinstance(node.func, ast.Name) and node.func.id == "slice" and len(node.args) == 1 and isinstance(node.args[0], ast.Constant) and node.args[0].value is None:
             return ast.Slice()
+        # getattr(obj, "name") with a literal name IS the attribute; {..literal dispatch..}.get(key) with a literal key
+        if isinstance(node.func, ast.Name) and node.func.id == "getattr" and len(node.args) == 2 and not node.keywords and isinstance(node.args[1], ast.Constant) and isinstance(node.args[1].value, str) and node.args[1].value.isidentifier():
+            return ast.Attribute(value=node.args[0], attr=node.args[1].value, ctx=ast.Load())
+        return node
+
+    @staticmethod
+    def _key(e):
+        """a literal dispatch key: a constant, or an enumeration member (MO.ROWS)"""
+        if isinstance(e, ast.Constant):
+            return ("c", repr(e.value))
+        if isinstance(e, ast.Attribute) and isinstance(e.value, ast.Name) and e.value.id.isupper() and e.attr.isupper():
+            return ("m", e.value.id, e.attr)
+        return None
+
+    def visit_Subscript(self, node):
+        self.generic_visit(node)
+        # a literal dispatch table subscripted by one of its literal keys: {MO.ROWS: a, MO.COLUMNS: b}[MO.ROWS] -> a
+        if isinstance(node.value, ast.Dict) and not isinstance(node.slice, ast.Slice):
+            k = self._key(node.slice)
+            keys = [self._key(x) if x is not None else None for x in node.value.keys]
+            if k is not None and all(x is not None for x in keys) and keys.count(k) == 1:
+                return node.value.values[keys.index(k)]
+        # a literal tuple / list subscripted by a literal index: (a, b)[0] -> a
+        if isinstance(node.value, (ast.Tuple, ast.List)) and self._int(node.slice) and not any(isinstance(x, ast.Starred) for x in node.value.elts):
+            i = node.slice.value
+            if -len(node.value.elts) <= i < len(node.value.elts):
+                return node.value.elts[i]
         return node
 
 
@@ -806,6 +833,24 @@ def expand(repo: Repo, ctx: ClassInfo, member_name: str, stop=None, bind=None, m
 
         raise AnalysisError(f"member vanished: {ctx.qual}.{member_name}")
     return Expander(repo, ctx, stop, max_depth).expand_member(m, bind)
+
+
+class _DistributeAttr(ast.NodeTransformer):
+    """`(a if t else b).x` -> `a.x if t else b.x` (also through nested conditionals): the leaves of a selection keep the
+    attribute that was applied to the selection as a whole."""
+
+    def visit_Attribute(self, node: ast.Attribute):
+        self.generic_visit(node)
+        v = node.value
+        if isinstance(v, ast.IfExp):
+            return self.visit(ast.IfExp(test=v.test, body=ast.Attribute(value=v.body, attr=node.attr, ctx=node.ctx), orelse=ast.Attribute(value=v.orelse, attr=node.attr, ctx=node.ctx)))
+        return node
+
+
+def distribute_attr(e: ast.expr) -> ast.expr:
+    import copy as _copy
+
+    return _DistributeAttr().visit(_copy.deepcopy(e))
 
 
 def strip_ifexp_paths(e: ast.expr) -> List[Tuple[List[Tuple[ast.expr, bool]], ast.expr]]:
